@@ -1,15 +1,16 @@
 """C18 — output write failures are reported, never followed by a successful exit."""
-import json, os, gzip, subprocess
+import json, os, gzip, subprocess, re
 from concurrent.futures import ThreadPoolExecutor
 import vlib
 
 PROPS = ["C18/Props.v"]
 META = dict(
-    text="Rocq theorems over an executable model of the output path writer loop -> Wfile (bufio.Writer.Write/Flush transcribed from the Go library, sticky error) -> lower layer: for every chunk list, every arrival permutation, every buffer size and EVERY device, exit = ok implies that all expected bytes were delivered, the output was closed exactly once and that Close succeeded. Proved (i) for the plain device accepting k bytes / failing at Close (FASTA/FASTQ, JSON, CSV; explicit: k smaller than the result, or a failing Close, gives a fatal exit; the model's fuel is sufficient), (ii) round 2: over an ABSTRACT lower layer (Layer.v), instantiated with COMPRESSED outputs (-Z: the compressor is any state machine that acts on the device only by writing and obeys the single law 'an error of the device is returned by a later Write or by Close': exit ok => the compressor got every expected byte and closed without error, no device write failed, one successful Close) and with other device error shapes (a short write WITHOUT error at any offset, an error on zero-length writes); (iii) for FASTA/FASTQ and CSV the robust variants (only Close checked + Flush error returned suffices: bufio's error is sticky), as for JSON. The unchanged code is kept as configuration `orig` with one refutation per discarded-error mechanism. Tied to the code on every run: the real WriteFasta/WriteFastq/WriteJSON/WriteCSV write into an io.WriteCloser failing after k bytes for every k of small outputs (boundary and sampled k around the 4096-byte buffer for outputs of 4-9 KB, chunk sizes of exactly 4095/4096/4097 bytes, chunks larger than the empty buffer, zero-length chunks), at Close, cutting a write short without error at offset c, or failing zero-length writes; logrus' exit function is intercepted, and exit class (+ bytes received, close count, zero-length writes seen on successful exits) is compared with the models (vm_compute) and with a Python oracle, which also demands 'exit ok => no Write/Close of the device returned an error' for compressed and plain runs; the built obiconvert/obicsv commands are run against /dev/full and against a regular file (stdout and -o).",
-    note="Trusted: Coq kernel + vm_compute; harness (in-process fatal hook: the first call of logrus' ExitFunc records the exit and the device state, later actions are ignored), generators. pgzip itself is not modelled: it enters the compressed theorems only through the law gz_law (hypothesis; shown satisfiable by a store-and-forward instance); that the law holds of pgzip is checked per run by the oracle (exit ok => gunzip(arrived) = expected and no device error), not proved. Decided device shapes: short write WITHOUT error - uncompressed safe (bufio: io.ErrShortWrite while flushing => fatal; retried on the direct path; proved + corresponded), compressed NOT safe (pgzip ignores the count: observation gzip-short-write-without-error, outside the io.Writer contract); error on a zero-length write - never reaches the device (0 zero-length writes observed in every run; model: bufio never forwards an empty write); failing Sync - nothing on the output path calls Sync (0 calls observed; a write-back error can only surface at Close, which is checked). CLI runs use /dev/full (Linux). Several formatting workers: compared under the identity arrival.")
+    text="Rocq theorems over an executable model of the output path writer loop -> Wfile (bufio.Writer.Write/Flush transcribed from the Go library, sticky error) -> lower layer: for every chunk list, every arrival permutation, every buffer size and EVERY device, exit = ok implies that all expected bytes were delivered, the output was closed exactly once and that Close succeeded. Proved (i) for the plain device accepting k bytes / failing at Close (FASTA/FASTQ, JSON, CSV; explicit: k smaller than the result, or a failing Close, gives a fatal exit; the model's fuel is sufficient), (ii) over an ABSTRACT lower layer (Layer.v), instantiated with COMPRESSED outputs (-Z: the compressor is any state machine that acts on the device only by writing and obeys the single law 'an error of the device is returned by a later Write or by Close') and with other device error shapes (a short write WITHOUT error at any offset, an error on zero-length writes); (iii) robust variants (only Close checked + Flush error returned suffices: bufio's error is sticky); (iv) round 3: streams the writer does NOT own (OptionDontCloseFile = JSON/CSV on the standard output, plain and compressed: exit ok => every byte delivered and the stream left open; the final flush / compressor close stays fatal), a HISTORY of calls on one Wfile (Close without error => every Write returned Ok and every byte is below; after the first error every later call and Close fail), and the order 'report the Close error, then signal completion' (after the signal main may exit 0: with the code's order a possible successful exit implies a complete output; refuted for the opposite order). The unchanged code is kept as configuration `orig` with one refutation per discarded-error mechanism. Tied to the code on every run: the real WriteFasta/WriteFastq/WriteJSON/WriteCSV (owned or not owned stream, plain or rich records, 1-4 formatting workers, up to 60 batches in shuffled arrival), WriteSeqFileChunk fed directly (toBeClosed or closed by the caller) and histories of Write/WriteString/Close on one obiutils.Wfile (CompressStream and OpenWritingFile on /dev/full and regular files) write into an io.WriteCloser failing after k bytes for every k of small outputs (boundary and sampled k around the 4096-byte buffer for larger ones, compressed results above one 1 MiB compressor block), at Close, cutting a write short without error, or failing zero-length writes; logrus' exit function is intercepted (a subset of the runs with a SLOW logger, so that a fatal message issued after completion was signalled loses the race deterministically), and exit class (+ bytes received, close count) is compared with the models (vm_compute) and with a Python oracle; the built obiconvert / obicsv / obigrep / obidistribute are run against /dev/full and against regular files: stdout and -o, all four formats explicit and guessed, -Z, OBI headers, one CPU, paired outputs (either mate on the full device), the side output of --save-discarded, one file per class (obidistribute, append mode), an output that cannot be opened, a reader of the output that goes away in the middle of a large result (FIFO / pipe: EPIPE, SIGPIPE); the small results are run four times each (schedule-dependent exits).",
+    note="Trusted: Coq kernel + vm_compute; harness (in-process fatal hook: the first call of logrus' ExitFunc records the exit and the device state, later actions are ignored), generators. pgzip itself is not modelled: it enters the compressed theorems only through the law gz_law (hypothesis; shown satisfiable by a store-and-forward instance); that the law holds of pgzip is checked per run by the oracle (exit ok => gunzip(arrived) = expected and no device error), not proved. Decided device shapes: short write WITHOUT error - uncompressed safe (bufio: io.ErrShortWrite while flushing => fatal; retried on the direct path; proved + corresponded; a divergence of the exit class from the 4096-byte model on this contract-breaking shape is recorded, not alarmed: it depends on the buffer size), compressed NOT safe (pgzip ignores the count: observation gzip-short-write-without-error, outside the io.Writer contract); error on a zero-length write - never reaches the device; failing Sync - nothing on the output path calls Sync. CLI runs use /dev/full (Linux) and symbolic links to it. Several formatting workers: compared under the identity arrival. Outside the property, not judged (the check executes most of it, but takes the formatted chunk as given; C02/C04 judge the text): the record formatters JSONRecord / _UnescapeUnicodeCharactersInJSON / CSVRecord / CSVHeader / FormatFasta / FormatFastq (single record, never called by the writers) and the log.Fatalf on an empty sequence without --skip-empty (an input error, not an output failure). Not exercised: CLIWriteBioSequences with terminalAction=false (obicleandb, obikmersimcount: need reference data; same writers), the append and paired branches of WriteCSVToFile / the append branch of WriteJSONToFile (no command reaches them), the panics of JSONRecord on a marshalling error and the error of os.Stdout.Stat (not reachable), FormatFastq (no caller). Observations recorded in known_findings.d/C18.json (no failure of the output involved): OpenWritingFile (no caller in the repository) does not truncate an existing file; BuildPairedFileNames panics on an output name without extension.")
 TRUSTED = ["bufio.Writer.Write/Flush transcribed by hand from the Go 1.23 library source (tied by the correspondence run, buffer size 4096)",
            "compressed outputs: pgzip is an abstract transducer constrained only by the hypothesis gz_law (acts on the device by writes only; a device error is returned by a later Write or by Close); the law is checked on pgzip per run by the oracle, not proved",
-           "devices honour the io.Writer contract in the compressed theorems (a short write without error below pgzip loses bytes: observation gzip-short-write-without-error)"]
+           "devices honour the io.Writer contract in the compressed theorems (a short write without error below pgzip loses bytes: observation gzip-short-write-without-error)",
+           "the race between main's return and a late log.Fatalf is modelled as 'main may exit 0 as soon as completion is signalled' (Own.v may_exit_ok); the in-process runs with a slow logger are the observation of that schedule; the commands on small results are repeated"]
 
 WRITERS = ["fasta", "fastq", "json", "csv"]
 KIND = dict(fasta="KFasta", fastq="KFastq", json="KJson", csv="KCsv")
@@ -44,7 +45,18 @@ CORPUS = [
 def norm(c):
     return dict(writer=c["writer"], sizes=c.get("sizes") or [], bytes=c.get("bytes") or [], arrival=c["arrival"], workers=c.get("workers", 1), compressed=bool(c.get("compressed")),
                 seqlen=c.get("seqlen", 0), fail_at=c.get("fail_at", -1), close_fails=bool(c.get("close_fails")),
-                cut_at=c.get("cut_at", 0), zero_err=bool(c.get("zero_err")))
+                cut_at=c.get("cut_at", 0), zero_err=bool(c.get("zero_err")),
+                unowned=bool(c.get("unowned")), slow_log=bool(c.get("slow_log")), rich=bool(c.get("rich")), mode=c.get("mode", ""),
+                keep_open=bool(c.get("keep_open")), empty=bool(c.get("empty")), ops=c.get("ops") or [], path=c.get("path", ""), append=bool(c.get("append")), pre=c.get("pre", 0))
+
+
+def family(c):
+    """which model evaluates the case: plain (Model.v), shapes (Layer.v), unowned / wfile (Own.v)"""
+    if c.get("mode") == "wfile":
+        return "wfile"
+    if c.get("unowned"):
+        return "unowned"
+    return "shapes" if shaped(c) else "plain"
 
 
 def shaped(c):
@@ -74,7 +86,7 @@ def expected_bytes(c, o):
     """what a fault-free run must deliver (C04): computed from the formatted batches"""
     chunks = [bytes.fromhex(x) for x in (o.get("chunks") or [])]
     w = c["writer"]
-    if w in ("fasta", "fastq"):
+    if w in ("fasta", "fastq") or c.get("mode") == "wfile":
         return b"".join(chunks)
     if w == "json":
         return b"[\n" + b",\n".join(x for x in chunks if x) + b"\n]\n"
@@ -100,8 +112,12 @@ def check(c, o):
         return None      # a chunk of exactly that many bytes cannot be formed
     if o.get("kind") != "ok":
         return "writer did not terminate / crashed: %s" % (o.get("err") or o.get("kind"))
+    if c.get("path"):
+        return check_path(c, o)
     exp = expected_bytes(c, o)
-    if o["exit"] == "ok" and c.get("compressed") and c.get("cut_at", 0) > 0 and not o.get("dev_failed") and o["closes"] == 1:
+    want_closes = 0 if c.get("unowned") else 1
+    close_fails = bool(c.get("close_fails")) and not c.get("unowned")     # a stream that is not owned is never closed
+    if o["exit"] == "ok" and c.get("compressed") and c.get("cut_at", 0) > 0 and not o.get("dev_failed") and o["closes"] == want_closes:
         # observation gzip-short-write-without-error (known_findings.d/C18.json): pgzip relies on the io.Writer
         # contract (n < len(p) => err != nil); a device breaking it is outside the property's fault model
         return None
@@ -112,19 +128,52 @@ def check(c, o):
             got = bytes.fromhex(o.get("got") or "")
             return "successful exit although only %d bytes%s reached the output (fault after %s bytes%s)" % (
                 len(got), "" if c.get("compressed") else " of %d" % len(exp), c.get("fail_at", -1), ", close fails" if c.get("close_fails") else "")
-        if o["closes"] != 1:
-            return "successful exit with the output closed %d times" % o["closes"]
-        if c.get("close_fails"):
+        if o["closes"] != want_closes:
+            return "successful exit with the output closed %d times (%s)" % (o["closes"], "not owned: must stay open" if c.get("unowned") else "owned")
+        if close_fails:
             return "successful exit although Close of the output failed"
         return None
     # fatal: legitimate only if a fault was injected and could be hit
     k = c.get("fail_at", -1)
-    if c.get("cut_at", 0) > 0 and c["cut_at"] < len(exp):
-        return None      # a short write without error: bufio may turn it into io.ErrShortWrite
+    if c.get("cut_at", 0) > 0 and (c["cut_at"] < len(exp) or c.get("compressed")):
+        return None      # a short write without error: bufio (pgzip) may turn it into io.ErrShortWrite
     if c.get("zero_err") and o.get("zero_writes"):
         return None
-    if not c.get("close_fails") and (k < 0 or (not c.get("compressed") and k >= len(exp))):
+    if not close_fails and (k < 0 or (not c.get("compressed") and k >= len(exp))):
         return "fatal exit without any output failure"
+    return None
+
+
+def check_path(c, o):
+    """obiutils.OpenWritingFile on a real path: /dev/full (every write fails: ENOSPC), a regular file, a missing directory"""
+    data = b"".join(bytes.fromhex(x) for x in (o.get("chunks") or []))
+    if o.get("open_err"):
+        return None if "nodir" in c["path"] else "OpenWritingFile failed on %s" % c["path"]
+    if "nodir" in c["path"]:
+        return "OpenWritingFile succeeded in a directory that does not exist"
+    if c["path"] == "/dev/full":
+        if not o.get("reported") and (data or c.get("compressed")):
+            return "no Write and no Close of the Wfile returned an error although the file is /dev/full (%d bytes lost)" % len(data)
+        return None
+    if o.get("reported"):
+        return "a failure is reported on a healthy regular file"
+    got = bytes.fromhex(o.get("file") or "")
+    pre = b"P" * max(c.get("pre", 0), 0)
+    if c.get("append"):
+        if not got.startswith(pre):
+            return "append mode lost the previous content"
+        got = got[len(pre):]
+        pre = b""
+    if c.get("compressed"):
+        try:
+            got = gzip.decompress(got)
+        except Exception:
+            got = None
+    elif not c.get("append") and len(pre) > len(data) and got == data + pre[len(data):]:
+        o["_stale_tail"] = True      # observation openwritingfile-no-truncate: outside the property (no failure involved)
+        return None
+    if got != data:
+        return "no failure reported but the file does not hold the %d bytes written" % len(data)
     return None
 
 
@@ -139,8 +188,8 @@ class Table:
             self.names[b] = "K%d" % len(self.names)
         return self.names[b]
 
-    def defs(self):
-        return "".join("Definition %s : list N := %s.\n" % (n, packed(b)) for b, n in self.names.items())
+    def defs(self, used=None):
+        return "".join("Definition %s : list N := %s.\n" % (n, packed(b)) for b, n in self.names.items() if used is None or n in used)
 
 
 def nlist(b):
@@ -202,66 +251,198 @@ def scase_term(tab, c, o):
         "true" if c.get("zero_err") else "false", "true" if o["exit"] == "fatal" else "false", gterm, o["closes"], o.get("zero_writes", 0))
 
 
+def ucase_term(tab, c, o):
+    return "mkuc %s (%s)" % ("false" if c.get("unowned") else "true", scase_term(tab, c, o))
+
+
+def wcase_term(tab, c, o):
+    ops = [bytes.fromhex(x) for x in (o.get("chunks") or [])]
+    k, cut = c.get("fail_at", -1), c.get("cut_at", 0)
+    got = bytes.fromhex(o.get("got") or "")
+    exp = b"".join(ops)
+    gterm = ("firstn (N.to_nat %d) %s" % (len(got), tab.ref(exp))) if (exp[:len(got)] == got and got) else nlist(got)
+    return "mkwc %s [%s] %s %s %s %s %s (%s) %d" % (
+        "false" if c.get("unowned") else "true", "; ".join(tab.ref(x) for x in ops), "None" if k < 0 else "(Some (N.to_nat %d))" % k,
+        "false" if c.get("close_fails") else "true", "(Some (N.to_nat %d))" % cut if cut > 0 else "None", "true" if c.get("zero_err") else "false",
+        "true" if o.get("reported") else "false", gterm, o["closes"])
+
+
+FAMILIES = dict(plain=("mismatches", "Model", case_term), shapes=("smismatches", "Model Layer", scase_term),
+                unowned=("umismatches", "Model Layer Own", ucase_term), wfile=("wmismatches", "Model Layer Own", wcase_term))
+
+
 def evaluate(ctx, cases, broken, label, corr=True, fn="mismatches"):
     import threading
-    tab, tab2, lock = Table(), Table(), threading.Lock()
+    tabs, lock = {f: Table() for f in FAMILIES}, threading.Lock()
 
     def post(i, c, o):
         why = check(c, o)
         o["_why"] = why
         o["got_len"] = len(o.get("got") or "") // 2
-        if o.get("kind") == "ok":
+        if o.get("kind") == "ok" and not c.get("path"):
             o["_exp_len"] = len(expected_bytes(c, o))
             o["_lost"] = (o.get("exit") == "ok" and arrived(c, o) != expected_bytes(c, o))
             if corr and not c.get("compressed"):
+                f = family(c)
                 with lock:
-                    o["_term"] = scase_term(tab2, c, o) if shaped(c) else case_term(tab, c, o)
+                    o["_term"] = FAMILIES[f][2](tabs[f], c, o)
         if why is None:
-            o.pop("chunks", None); o.pop("got", None)      # not looked at again
+            o.pop("chunks", None); o.pop("got", None); o.pop("file", None)      # not looked at again
         return o
+    import time
+    t0 = time.time()
     obs = run_impl(ctx, cases, post=post)
+    ctx.cov.setdefault("phase_wall_s", {})["%s_real_code_runs" % label] = round(time.time() - t0, 1)
     fails = [(i, o["_why"]) for i, o in enumerate(obs) if o.get("_why")]
     shown = set()
     for i, why in fails:
-        key = (cases[i]["writer"], why.split(" bytes")[0][:40], bool(cases[i].get("compressed")))
-        if key in shown or len(shown) >= 6:
+        c = cases[i]
+        key = (c["writer"], re.sub(r"\d+", "#", why)[:60], bool(c.get("compressed")), family(c), c.get("mode", ""), bool(c.get("slow_log")))
+        if key in shown or len(shown) >= 8:
             continue
         shown.add(key)
-        o = {k: v for k, v in obs[i].items() if k not in ("chunks", "_term")}
+        o = {k: v for k, v in obs[i].items() if k not in ("chunks", "_term", "file")}
         ctx.violation("%s_oracle_%d" % (label, i), dict(property="C18", kind="direct-oracle", case=norm(cases[i]), tag=cases[i].get("tag"), why=why,
-                                                      implementation=o, expected="exit fatal, or all %d bytes delivered and one Close" % obs[i].get("_exp_len", 0)))
+                                                      implementation=o, expected="exit fatal, or all %d bytes delivered and %s" % (
+                                                          obs[i].get("_exp_len", 0), "the stream left open" if c.get("unowned") else "one Close")))
     if not corr:
         return obs, fails, []
-    idx = [i for i, (c, o) in enumerate(zip(cases, obs)) if o.get("_term") and not shaped(c)]
-    terms = [obs[i]["_term"] for i in idx]
-    bad, err = ctx.correspond(label, IMPORTS + tab.defs(), terms, fn=fn, shard=250 if ctx.quick else 150, timeout=2400)
-    if bad is None:
-        broken.append(dict(kind="correspondence", detail=err))
-        return obs, fails, []
-    # the other device shapes: model over the abstract lower layer (Layer.v), device [sdev]
-    sidx = [i for i, (c, o) in enumerate(zip(cases, obs)) if o.get("_term") and shaped(c)]
-    if sidx and fn == "mismatches":
-        sterms = [obs[i]["_term"] for i in sidx]
-        sbad, err = ctx.correspond(label + "_shapes", IMPORTS.replace("Require Import Model.", "Require Import Model Layer.") + tab2.defs(), sterms,
-                                   fn="smismatches", shard=250 if ctx.quick else 150, timeout=2400)
-        if sbad is None:
+    # one pool for the shards of all four models; each shard carries only the byte strings it names
+    mism, jobs, idxs = [], [], {}
+    shard = 250 if ctx.quick else 150
+    for f, (ffn, mods, _) in FAMILIES.items():
+        if fn != "mismatches" and f != "plain":
+            continue
+        idxs[f] = [i for i, (c, o) in enumerate(zip(cases, obs)) if o.get("_term") and family(c) == f]
+        terms = [obs[i]["_term"] for i in idxs[f]]
+        jobs += [(f, k, terms[k:k + shard]) for k in range(0, len(terms), shard)]
+
+    def one(j):
+        f, k, part = j
+        ffn, mods, _ = FAMILIES[f]
+        used = set(re.findall(r"\bK\d+\b", " ".join(part)))
+        bad, err = ctx.correspond("%s_%s_%d" % (label, f, k // shard), IMPORTS.replace("Require Import Model.", "Require Import %s." % mods) + tabs[f].defs(used),
+                                  part, fn=(fn if f == "plain" else ffn), shard=len(part) + 1, timeout=2400)
+        return f, k, bad, err
+    t0 = time.time()
+    with ThreadPoolExecutor(max_workers=8) as ex:
+        res = list(ex.map(one, jobs))
+    ctx.cov.setdefault("phase_wall_s", {})["%s_models" % label] = round(time.time() - t0, 1)
+    ctx.cov["model_shards"] = ctx.cov.get("model_shards", 0) + len(jobs)
+    for f, k, bad, err in res:
+        if bad is None:
             broken.append(dict(kind="correspondence", detail=err))
-            return obs, fails, [idx[i] for i in bad]
+            continue
+        hit = [idxs[f][k + i] for i in bad]
         # a device which accepts fewer bytes than it was given and returns NO error breaks the io.Writer contract: outside the
         # fault model of the property. Whether such a run ends fatally (io.ErrShortWrite of a flush) or retries depends on
         # the size of the buffer between the writer and the device - an internal constant a maintainer may change - so a
         # divergence from the model (buffer of 4096) on these cases is recorded, not held against the tie; the direct oracle
         # above still demands, for them too, that a successful exit delivered every byte.
-        outside = [sidx[i] for i in sbad if cases[sidx[i]].get("cut_at", 0) > 0]
+        outside = [i for i in hit if cases[i].get("cut_at", 0) > 0]
         ctx.cov["short_write_without_error_model_divergences"] = ctx.cov.get("short_write_without_error_model_divergences", 0) + len(outside)
-        return obs, fails, [idx[i] for i in bad] + [sidx[i] for i in sbad if sidx[i] not in set(outside)]
-    return obs, fails, [idx[i] for i in bad]
+        mism += [i for i in hit if i not in set(outside)]
+    return obs, fails, sorted(mism)
+
+
+def fault_variants(ctx, c, o, light=False):
+    """the fault cases derived from a fault-free run [c] -> [o]: every byte offset of small outputs, boundary and sampled
+    offsets of larger ones, failing Close, the other device shapes. [light]: a sample only (second-order dimensions)."""
+    rng, cases = ctx.rng, []
+    total = len(bytes.fromhex(o.get("got") or ""))
+    chunks = [len(x) // 2 for x in (o.get("chunks") or [])]
+    huge = total > 100000 or c.get("seqlen", 0) >= 100000
+    if c.get("compressed"):
+        ks = {0, 1, 9, 10, 11, total - 1, total // 2} | {rng.randrange(total + 1) for _ in range(4 if ctx.quick else 40)}
+        if huge or light:
+            ks = {0, 11, total // 2, total - 1} | {rng.randrange(total + 1) for _ in range(1 if ctx.quick else 10)}
+    elif total <= 600:
+        ks = set(range(0, total + 2))                     # EVERY byte offset
+        if light:
+            ks = {0, 1, total // 2, total - 1, total, total + 1} | {rng.randrange(total + 1) for _ in range(6 if ctx.quick else 40)}
+    else:
+        ks = {0, 1, 4095, 4096, 4097, 8191, 8192, 8193, total - 1, total, total + 1}
+        acc = len(bytes.fromhex(o.get("header") or "")) + (2 if c["writer"] == "json" else 0)
+        for n in chunks[:40]:
+            acc += n
+            ks |= {acc - 1, acc, acc + 1, acc + 2, acc + 3}
+        if light:
+            ks = set(rng.sample(sorted(ks), min(len(ks), 8))) | {total - 1}
+        ks |= {rng.randrange(total + 1) for _ in range(6 if ctx.quick else 100)}
+    for k in sorted(x for x in ks if x >= 0):
+        cases.append(dict(c, fail_at=k))
+    cases.append(dict(c, close_fails=True))
+    if total > 0:
+        cases.append(dict(c, fail_at=total // 2, close_fails=True))
+    if huge:
+        return cases
+    # other device shapes: a short write WITHOUT error at offset cut; an error on zero-length writes
+    if total > 1:
+        if c.get("compressed") or light:
+            cuts = {1, total // 2, total - 1}
+        elif total <= 600:
+            cuts = set(range(1, total, 3 if ctx.quick else 1))
+        else:
+            cuts = {1, 100, 4095, 4096, 4097, 8191, 8192, 8193, total - 1, total // 2} | {rng.randrange(1, total) for _ in range(4 if ctx.quick else 60)}
+        for cut in sorted(x for x in cuts if 0 < x < total):
+            cases.append(dict(c, cut_at=cut))
+        cut = rng.randrange(1, total)
+        cases.append(dict(c, cut_at=cut, fail_at=rng.randrange(cut, total + 1)))
+        cases.append(dict(c, cut_at=cut, close_fails=True))
+    cases.append(dict(c, zero_err=True))
+    cases.append(dict(c, zero_err=True, fail_at=total // 2))
+    return cases
+
+
+# histories of calls on one Wfile: sizes of the successive Write (n >= 0) / WriteString (n < 0) calls
+WFILE_OPS = [[], [0], [1], [10, -5, 0, 5000], [4096], [4095, 1], [4097], [-4096, -4096], [2000, 2000, 2000], [-9000, 10], [10, 9000, 10],
+             [100, 0, 0, 100], [4000, 95, 1, 1, 1], [12000]]
+
+
+def wfile_cases(ctx):
+    rng, cases = ctx.rng, []
+    opsl = list(WFILE_OPS)
+    for _ in range(6 if ctx.quick else 60):
+        opsl.append([rng.choice([0, 1, 10, 100, 1000, 4095, 4096, 4097, 5000, 9000]) * rng.choice([1, 1, -1]) for _ in range(rng.randrange(0, 7))])
+    for ops in opsl:
+        total = sum(abs(n) for n in ops)
+        for un in (False, True):
+            b = dict(writer="fasta", arrival=[], mode="wfile", ops=ops, fail_at=-1, unowned=un)
+            cases.append(b)
+            ks = {0, 1, total - 1, total, total // 2, 4095, 4096, 4097} | {rng.randrange(total + 1) for _ in range(3 if ctx.quick else 30)}
+            acc = 0
+            for n in ops:
+                acc += abs(n)
+                ks |= {acc - 1, acc, acc + 1}
+            for k in sorted(x for x in ks if 0 <= x <= total + 1):
+                cases.append(dict(b, fail_at=k))
+            cases.append(dict(b, close_fails=True))
+            cases.append(dict(b, zero_err=True))
+            if total > 1:
+                cases.append(dict(b, cut_at=rng.randrange(1, total)))
+                cases.append(dict(b, fail_at=rng.randrange(total), close_fails=True))
+        if total > 0:
+            for k in (-1, 0, 11, total // 20):
+                cases.append(dict(writer="fasta", arrival=[], mode="wfile", ops=ops, fail_at=k, compressed=True, unowned=bool(rng.randrange(2))))
+            cases.append(dict(writer="fasta", arrival=[], mode="wfile", ops=ops, fail_at=-1, compressed=True, close_fails=True))
+    # OpenWritingFile on real paths
+    d = os.path.join(vlib.BUILD, "c18_in")
+    os.makedirs(d, exist_ok=True)
+    f = os.path.join(d, "wfile.out")
+    for ops in ([10, -5], [5000], [-3, 4096, 4096], []):
+        for z in (False, True):
+            cases.append(dict(writer="fasta", arrival=[], mode="wfile", ops=ops, path="/dev/full", compressed=z, pre=-1))
+            cases.append(dict(writer="fasta", arrival=[], mode="wfile", ops=ops, path=f, compressed=z, pre=0))
+            cases.append(dict(writer="fasta", arrival=[], mode="wfile", ops=ops, path=f, compressed=z, pre=7, append=True))
+    cases.append(dict(writer="fasta", arrival=[], mode="wfile", ops=[10, -5], path=f, pre=40))      # observation openwritingfile-no-truncate
+    cases.append(dict(writer="fasta", arrival=[], mode="wfile", ops=[10], path=os.path.join(d, "nodir", "x.out"), pre=-1))
+    return cases
 
 
 def gen_cases(ctx, extra_random):
     rng = ctx.rng
     # pass 1: fault-free runs (also give the output sizes)
-    base = []
+    base, second = [], []
     for w in WRITERS:
         for sizes, arr in SMALL:
             base.append(dict(writer=w, sizes=sizes, arrival=arr, fail_at=-1))
@@ -272,52 +453,64 @@ def gen_cases(ctx, extra_random):
         base.append(dict(writer=w, sizes=[1, 1, 1, 1], arrival=[0, 1, 2, 3], workers=4, fail_at=-1))
         base.append(dict(writer=w, sizes=[1, 2, 1], arrival=[2, 0, 1], fail_at=-1, compressed=True))
         base.append(dict(writer=w, sizes=[2, 1, 2], arrival=[1, 2, 0], seqlen=2000, fail_at=-1, compressed=True))
-    obs = run_impl(ctx, base)
-    cases = list(CORPUS) + base
-    for c, o in zip(base, obs):
+        # ---- round 3
+        # the stream is NOT owned (OptionDontCloseFile: JSON / CSV on the standard output; possible for every writer)
+        full = w in ("json", "csv")
+        for sizes, arr in (SMALL if full else SMALL[1:3]):
+            (base if full else second).append(dict(writer=w, sizes=sizes, arrival=arr, fail_at=-1, unowned=True))
+        for sizes, arr, sl in (BIG[1:4] if full else BIG[3:4]):
+            (base if full else second).append(dict(writer=w, sizes=sizes, arrival=arr, seqlen=sl, fail_at=-1, unowned=True))
+        second.append(dict(writer=w, sizes=[1, 2, 1], arrival=[2, 0, 1], fail_at=-1, compressed=True, unowned=True))
+        second.append(dict(writer=w, sizes=[2, 1, 2], arrival=[1, 2, 0], seqlen=2000, fail_at=-1, compressed=True, unowned=True))
+        # records with annotations (escapes, non-ASCII), qualities, definition; CSV with every optional column
+        second.append(dict(writer=w, sizes=[2, 1, 2], arrival=[1, 2, 0], fail_at=-1, rich=True))
+        second.append(dict(writer=w, sizes=[1, 0, 2], arrival=[2, 1, 0], seqlen=1300, fail_at=-1, rich=True, unowned=full))
+        # records with an empty sequence, skipped by the writer (--skip-empty): chunks shorter than their batch, possibly empty
+        if w in ("fasta", "fastq"):
+            second.append(dict(writer=w, sizes=[1, 2, 0, 1], arrival=[3, 1, 0, 2], fail_at=-1, empty=True))
+            second.append(dict(writer=w, sizes=[1, 1], arrival=[1, 0], seqlen=2100, fail_at=-1, empty=True, compressed=(w == "fastq")))
+        # long streams of tiny batches: long runs drained from the re-sequencing buffer
+        n = 60 if ctx.quick else 400
+        arr = list(range(n)); rng.shuffle(arr)
+        second.append(dict(writer=w, sizes=[rng.choice([1, 1, 0, 2]) for _ in range(n)], arrival=arr, fail_at=-1))
+        second.append(dict(writer=w, sizes=[1] * n, arrival=list(reversed(range(n))), seqlen=150, fail_at=-1, unowned=full))
+        second.append(dict(writer=w, sizes=[1] * 24, arrival=list(range(24)), workers=3, seqlen=200, fail_at=-1))
+        # a compressed result larger than one block of the parallel compressor (1 MiB): device writes happen DURING the run
+        second.append(dict(writer=w, sizes=[1, 1, 1, 1], arrival=[1, 0, 3, 2], seqlen=300000, fail_at=-1, compressed=True, unowned=(w == "json")))
+    # WriteSeqFileChunk itself (no completion channel), fed with formatted chunks; toBeClosed or left to the caller
+    for w in ("fasta", "fastq"):
+        for keep in (False, True):
+            for un in (False, True):
+                second.append(dict(writer=w, sizes=[1, 1, 1], arrival=[1, 2, 0], fail_at=-1, mode="chunk", keep_open=keep, unowned=un))
+            second.append(dict(writer=w, sizes=[1, 1], arrival=[1, 0], seqlen=4200, fail_at=-1, mode="chunk", keep_open=keep))
+            second.append(dict(writer=w, sizes=[1, 0, 1], arrival=[2, 1, 0], fail_at=-1, mode="chunk", keep_open=keep, compressed=True))
+    nb = len(base)
+    obs = run_impl(ctx, base + second)
+    cases = list(CORPUS) + base + second
+    for i, (c, o) in enumerate(zip(base + second, obs)):
         if o.get("kind") != "ok":
             continue
+        cases += fault_variants(ctx, c, o, light=(i >= nb))
+        # the logger is slow: a log.Fatalf issued after completion has been signalled loses the race against main
         total = len(bytes.fromhex(o.get("got") or ""))
-        chunks = [len(x) // 2 for x in (o.get("chunks") or [])]
-        if c.get("compressed"):
-            ks = {0, 1, 9, 10, 11, total - 1, total // 2} | {rng.randrange(total + 1) for _ in range(4 if ctx.quick else 40)}
-        elif total <= 600:
-            ks = set(range(0, total + 2))                     # EVERY byte offset
-        else:
-            ks = {0, 1, 4095, 4096, 4097, 8191, 8192, 8193, total - 1, total, total + 1}
-            acc = len(bytes.fromhex(o.get("header") or "")) + (2 if c["writer"] == "json" else 0)
-            for n in chunks:
-                acc += n
-                ks |= {acc - 1, acc, acc + 1, acc + 2, acc + 3}
-            ks |= {rng.randrange(total + 1) for _ in range(6 if ctx.quick else 100)}
-        for k in sorted(x for x in ks if x >= 0):
-            cases.append(dict(c, fail_at=k))
-        cases.append(dict(c, close_fails=True))
-        if total > 0:
-            cases.append(dict(c, fail_at=total // 2, close_fails=True))
-        # other device shapes: a short write WITHOUT error at offset cut; an error on zero-length writes
-        if total > 1:
-            if c.get("compressed"):
-                cuts = {1, total // 2, total - 1}
-            elif total <= 600:
-                cuts = set(range(1, total, 3 if ctx.quick else 1))
-            else:
-                cuts = {1, 100, 4095, 4096, 4097, 8191, 8192, 8193, total - 1, total // 2} | {rng.randrange(1, total) for _ in range(4 if ctx.quick else 60)}
-            for cut in sorted(x for x in cuts if 0 < x < total):
-                cases.append(dict(c, cut_at=cut))
-            cut = rng.randrange(1, total)
-            cases.append(dict(c, cut_at=cut, fail_at=rng.randrange(cut, total + 1)))
-            cases.append(dict(c, cut_at=cut, close_fails=True))
-        cases.append(dict(c, zero_err=True))
-        cases.append(dict(c, zero_err=True, fail_at=total // 2))
+        if c.get("workers", 1) == 1 and (c.get("seqlen", 0) < 100000) and (i % 3 == ctx.seed % 3 or c.get("unowned") or c.get("mode")):
+            if total > 0:
+                cases.append(dict(c, fail_at=total - 1, slow_log=True))
+                cases.append(dict(c, fail_at=rng.randrange(total), slow_log=True))
+            if not c.get("unowned"):
+                cases.append(dict(c, close_fails=True, slow_log=True))
+    cases += wfile_cases(ctx)
     for _ in range(extra_random):
         n = rng.randrange(0, 6)
         arr = list(range(n)); rng.shuffle(arr)
         big = rng.random() < 0.25
-        cases.append(dict(writer=rng.choice(WRITERS), sizes=[rng.choice([0, 1, 1, 2]) for _ in range(n)], arrival=arr,
+        w = rng.choice(WRITERS)
+        cases.append(dict(writer=w, sizes=[rng.choice([0, 1, 1, 2]) for _ in range(n)], arrival=arr,
                           seqlen=rng.choice([1100, 2100, 4100]) if big else 0,
                           fail_at=rng.choice([-1, rng.randrange(0, 200), rng.randrange(0, 20000)]) if big else rng.randrange(-1, 150),
-                          close_fails=rng.random() < 0.1, compressed=rng.random() < 0.1))
+                          close_fails=rng.random() < 0.1, compressed=rng.random() < 0.1,
+                          unowned=rng.random() < 0.25, rich=rng.random() < 0.15, slow_log=rng.random() < 0.04, empty=rng.random() < 0.1,
+                          mode="chunk" if (w in ("fasta", "fastq") and rng.random() < 0.2) else "", keep_open=rng.random() < 0.5))
     return cases
 
 
@@ -325,83 +518,278 @@ def gen_cases(ctx, extra_random):
 def cli_cases(ctx):
     d = os.path.join(vlib.BUILD, "c18_in")
     os.makedirs(d, exist_ok=True)
-    for name, n in (("small", 3), ("large", 400)):
+    for name, n in (("small", 3), ("large", 400), ("huge", 30000)):
         with open(os.path.join(d, name + ".fasta"), "w") as f:
-            f.write("".join(">s%d\n%s\n" % (i, "acgtacgtac" * 6) for i in range(n)))
+            f.write("".join(">s%d {\"sample\":\"%s\"}\n%s\n" % (i, "AB"[i % 2], "acgtacgtac" * 6) for i in range(n)))
+        if name == "huge":
+            continue
         with open(os.path.join(d, name + ".fastq"), "w") as f:
-            f.write("".join("@s%d\n%s\n+\n%s\n" % (i, "acgtacgtac" * 6, "I" * 60) for i in range(n)))
+            f.write("".join("@s%d {\"sample\":\"%s\"}\n%s\n+\n%s\n" % (i, "AB"[i % 2], "acgtacgtac" * 6, "I" * 60) for i in range(n)))
+        with open(os.path.join(d, name + "_R2.fastq"), "w") as f:
+            f.write("".join("@s%d\n%s\n+\n%s\n" % (i, "ttgcattgca" * 5, "H" * 50) for i in range(n)))
     res = []
     for size in ("small", "large"):
-        fa, fq = os.path.join(d, size + ".fasta"), os.path.join(d, size + ".fastq")
+        fa, fq, fq2 = os.path.join(d, size + ".fasta"), os.path.join(d, size + ".fastq"), os.path.join(d, size + "_R2.fastq")
         for args in (["obiconvert", fa], ["obiconvert", fq], ["obiconvert", "--json-output", fa], ["obiconvert", "-Z", fa],
-                     ["obiconvert", "--fasta-output", fq]):
-            res.append(dict(argv=args, mode="-o"))
-            res.append(dict(argv=args, mode=">"))
-        res.append(dict(argv=["obicsv", "-i", "-s", fa], mode=">"))
-        res.append(dict(argv=["obicsv", "-i", "-s", fa], mode="-o"))
+                     ["obiconvert", "--fasta-output", fq],
+                     # round 3: the explicit FASTQ writers, compressed JSON / FASTQ, OBI headers, one CPU, another command
+                     ["obiconvert", "--fastq-output", fq], ["obiconvert", "-Z", "--fastq-output", fq], ["obiconvert", "-Z", "--json-output", fq],
+                     ["obiconvert", "--output-OBI-header", fa], ["obiconvert", "--max-cpu", "1", fq], ["obigrep", "-l", "1", fa]):
+            res.append(dict(argv=args, mode="-o", slow_stderr=(size == "small")))
+            res.append(dict(argv=args, mode=">", slow_stderr=(size == "small")))
+        for args in (["obicsv", "-i", "-s", fa], ["obicsv", "-Z", "-i", "-s", "-k", "sample", fa], ["obicsv", "--auto", "-i", fa]):
+            res.append(dict(argv=args, mode=">", slow_stderr=(size == "small")))
+            res.append(dict(argv=args, mode="-o", slow_stderr=(size == "small")))
+        # paired output: <name>_R1.<ext> / <name>_R2.<ext> (BuildPairedFileNames); either file on a full device
+        for args in (["obiconvert", "--paired-with", fq2, fq], ["obiconvert", "--fasta-output", "--paired-with", fq2, fq],
+                     ["obiconvert", "--json-output", "--paired-with", fq2, fq], ["obiconvert", "--fastq-output", "-Z", "--paired-with", fq2, fq]):
+            for bad in ("R1", "R2"):
+                res.append(dict(argv=args, mode="paired", bad=bad))
+            if size == "small":
+                res.append(dict(argv=args, mode="paired", bad="R2-cannot-be-opened"))
+        # a side output: the discarded sequences of obigrep
+        res.append(dict(argv=["obigrep", "-l", "1000", fa], mode="discarded"))
+        # one file per value of an attribute (WriterDispatcher): the file of sample A is on a full device
+        res.append(dict(argv=["obidistribute", "-c", "sample", fa], mode="distribute"))
+        res.append(dict(argv=["obidistribute", "-c", "sample", "--fastq-output", "-A", fq], mode="distribute"))
+        res.append(dict(argv=["obidistribute", "-c", "sample", "--fasta-output", "-A", fq], mode="distribute"))
+    # the output cannot be opened
+    fa = os.path.join(d, "small.fasta")
+    for args in (["obiconvert", fa], ["obiconvert", "--json-output", fa], ["obiconvert", "--fastq-output", os.path.join(d, "small.fastq")],
+                 ["obiconvert", "--fasta-output", os.path.join(d, "small.fastq")], ["obicsv", "-i", "-s", fa]):
+        res.append(dict(argv=args, mode="openfail"))
+    # a fault in the MIDDLE of a large result: the output is a FIFO whose reader goes away after k bytes (EPIPE; on the standard
+    # output the process dies of SIGPIPE, a non-zero status too); the healthy twin reads everything
+    huge = os.path.join(d, "huge.fasta")
+    for args, k in ((["obiconvert", huge], 300000), (["obiconvert", "--json-output", huge], 1000000), (["obiconvert", "-Z", huge], 100),
+                    (["obicsv", "-i", "-s", huge], 5000)):
+        res.append(dict(argv=args, mode="fifo", k=k))
+    res.append(dict(argv=["obiconvert", huge], mode="pipe", k=300000))
+    res.append(dict(argv=["obicsv", "-Z", "-i", "-s", huge], mode="pipe", k=100))
+    # compressed result larger than a block of the compressor
+    res.append(dict(argv=["obiconvert", "-Z", os.path.join(d, "huge.fasta")], mode="-o"))
+    res.append(dict(argv=["obiconvert", "-Z", "--json-output", os.path.join(d, "huge.fasta")], mode=">"))
     return res
 
 
-def run_cli(bindir, c, target):
-    argv = [os.path.join(bindir, c["argv"][0]), "--no-progressbar", "--max-cpu", "2"] + c["argv"][1:]
+def spawn(argv, stdout, slow_stderr=False, timeout=60):
+    """run a command; [slow_stderr]: its standard error is a full pipe drained a few bytes at a time - every log message
+    blocks for some milliseconds (a terminal, a pipe to a busy reader): a log.Fatalf issued AFTER completion has been signalled
+    loses the race against the return of main deterministically"""
+    import fcntl, threading, time
+    if not slow_stderr:
+        try:
+            p = subprocess.run(argv, stdout=stdout, stderr=subprocess.PIPE, timeout=timeout)
+            return p.returncode, p.stderr.decode("utf8", "replace")[-300:]
+        except subprocess.TimeoutExpired:
+            return 124, "timeout"
+    r, w = os.pipe()
     try:
-        if c["mode"] == "-o":
-            p = subprocess.run(argv + ["-o", target], stdout=subprocess.DEVNULL, stderr=subprocess.PIPE, timeout=60)
-        else:
-            with open(target, "wb") as out:
-                p = subprocess.run(argv, stdout=out, stderr=subprocess.PIPE, timeout=60)
-        return p.returncode, p.stderr.decode("utf8", "replace")[-300:]
+        fcntl.fcntl(w, 1031, 4096)        # F_SETPIPE_SZ
+        size = fcntl.fcntl(w, 1032)       # F_GETPIPE_SZ
+    except OSError:
+        size = 65536
+    os.set_blocking(w, False)
+    junk = 0
+    try:
+        while junk < size:
+            junk += os.write(w, b"\n" * min(4096, size - junk))
+    except BlockingIOError:
+        pass
+    os.set_blocking(w, True)
+    p = subprocess.Popen(argv, stdout=stdout, stderr=w)
+    os.close(w)
+    data = []
+
+    def drain():
+        while True:
+            b = os.read(r, 48 if p.poll() is None else 65536)
+            if not b:
+                return
+            data.append(b)
+            if p.poll() is None:
+                time.sleep(0.002)
+    t = threading.Thread(target=drain)
+    t.start()
+    try:
+        rc = p.wait(timeout=timeout)
     except subprocess.TimeoutExpired:
-        return 124, "timeout"
+        p.kill(); rc = 124
+    t.join(10)
+    os.close(r)
+    return rc, b"".join(data)[junk:].decode("utf8", "replace")[-300:]
+
+
+def run_reader(argv, c, d, full):
+    """the output is read by us: [full] -> we stop after c["k"] bytes and close; else we read to the end"""
+    import threading
+    if c["mode"] == "fifo":
+        path = os.path.join(d, "out.fifo")
+        os.mkfifo(path)
+        p = subprocess.Popen(argv + ["-o", path], stdout=subprocess.DEVNULL, stderr=subprocess.PIPE)
+        rfd = os.open(path, os.O_RDONLY)          # returns once the command has opened the FIFO for writing
+    else:
+        rfd, wfd = os.pipe()
+        p = subprocess.Popen(argv, stdout=wfd, stderr=subprocess.PIPE)
+        os.close(wfd)
+    try:
+        import fcntl
+        fcntl.fcntl(rfd, 1031, 4096)      # F_SETPIPE_SZ: little room between the command and us (the results are far larger than any pipe anyway)
+    except OSError:
+        pass
+    errs = []
+    t = threading.Thread(target=lambda: errs.append(p.stderr.read()))
+    t.start()
+    n = 0
+    while not full or n < c["k"]:
+        b = os.read(rfd, 65536 if not full else min(65536, c["k"] - n))
+        if not b:
+            break
+        n += len(b)
+    os.close(rfd)
+    try:
+        rc = p.wait(timeout=120)
+    except subprocess.TimeoutExpired:
+        p.kill(); rc = 124
+    t.join(10)
+    return rc, (errs[0] if errs else b"").decode("utf8", "replace")[-300:], [n]
+
+
+def run_cli(bindir, c, target, slow=False):
+    """[target]: "full" (the output, or one of the outputs, is /dev/full) or "ok" (regular files)"""
+    argv = [os.path.join(bindir, c["argv"][0]), "--no-progressbar"] + ([] if "--max-cpu" in c["argv"] else ["--max-cpu", "2"]) + c["argv"][1:]
+    d = os.path.join(vlib.BUILD, "c18_in", "out%d" % c.get("_slot", 0))
+    import shutil
+    shutil.rmtree(d, ignore_errors=True)
+    os.makedirs(d)
+    full = target == "full"
+    outs = []
+    stdout = subprocess.DEVNULL
+    if c["mode"] == "-o":
+        outs = [os.path.join(d, "out.tmp")]
+        argv += ["-o", "/dev/full" if full else outs[0]]
+    elif c["mode"] == ">":
+        outs = [os.path.join(d, "out.tmp")]
+        stdout = open("/dev/full" if full else outs[0], "wb")
+    elif c["mode"] == "paired":
+        outs = [os.path.join(d, "pp_R1.xx"), os.path.join(d, "pp_R2.xx")]
+        if full and c["bad"] == "R2-cannot-be-opened":
+            os.mkdir(outs[1])        # the name of the reverse file is taken by a directory
+        elif full:
+            os.symlink("/dev/full", outs[0 if c["bad"] == "R1" else 1])
+        argv += ["-o", os.path.join(d, "pp.xx")]
+    elif c["mode"] == "discarded":
+        outs = [os.path.join(d, "discarded.tmp")]
+        argv += ["--save-discarded", "/dev/full" if full else outs[0], "-o", os.path.join(d, "kept.tmp")]
+    elif c["mode"] == "distribute":
+        outs = [os.path.join(d, "dist_A.xx"), os.path.join(d, "dist_B.xx")]
+        if full:
+            os.symlink("/dev/full", outs[0])
+        argv += ["-p", os.path.join(d, "dist_%s.xx")]
+    elif c["mode"] == "openfail":
+        outs = [os.path.join(d, "out.tmp")]
+        argv += ["-o", os.path.join(d, "nodir", "out.tmp") if full else outs[0]]
+    elif c["mode"] in ("fifo", "pipe"):
+        return run_reader(argv, c, d, full)
+    try:
+        rc, err = spawn(argv, stdout, slow_stderr=slow)
+    finally:
+        if stdout is not subprocess.DEVNULL:
+            stdout.close()
+    sizes = [os.path.getsize(f) if os.path.isfile(f) and not os.path.islink(f) else -1 for f in outs]
+    return rc, err, sizes
 
 
 def cli_check(ctx, broken):
-    bindir, err = ctx.build_cmds(["obiconvert", "obicsv"])
+    bindir, err = ctx.build_cmds(["obiconvert", "obicsv", "obigrep", "obidistribute"])
     if bindir is None:
         broken.append(dict(kind="cmd-build", detail=err))
         return 0
     cs = cli_cases(ctx)
-    okfile = os.path.join(vlib.BUILD, "c18_in", "out.tmp")
-    nbad = 0
+    nbad, nruns = 0, 0
     dist = {}
-    for c in cs:
-        rc_full, err_full = run_cli(bindir, c, "/dev/full")
-        rc_ok, err_ok = run_cli(bindir, c, okfile)
-        size_ok = os.path.getsize(okfile) if os.path.exists(okfile) else -1
+
+    def one(c):
+        rc_full, err_full, _ = run_cli(bindir, c, "full")
+        rc_ok, err_ok, sizes = run_cli(bindir, c, "ok")
         why = None
-        if rc_ok != 0 or size_ok <= 0:
-            why = "the command fails / writes nothing on a healthy output (exit %d, %d bytes)" % (rc_ok, size_ok)
+        if rc_ok != 0 or min(sizes) <= 0:
+            why = "the command fails / writes nothing on a healthy output (exit %d, %s bytes): %s" % (rc_ok, sizes, err_ok[-200:])
         elif rc_full == 0:
-            why = "exit status 0 although every write to the output failed (ENOSPC)"
-        dist["%s %s" % (c["argv"][0], c["mode"])] = dist.get("%s %s" % (c["argv"][0], c["mode"]), 0) + 1
+            why = "exit status 0 although %s" % ("the output could not be opened" if c["mode"] == "openfail" or "opened" in c.get("bad", "") else "the reader of the output went away after %d bytes (EPIPE)" % c["k"] if c["mode"] in ("fifo", "pipe") else "every write to %s failed (ENOSPC)" % (
+                "the output" if c["mode"] in ("-o", ">") else "one of the outputs"))
+        n = 2
+        if not why and c.get("slow_stderr"):
+            # small results: the fault is seen by the final flush only, and the exit status then depends on the order "report the
+            # error of Close / signal completion": if completion were signalled first, the return of main would race with the
+            # fatal message (measured on such a change: 40 %% of the runs exit 0). A slowly drained standard error does NOT expose it
+            # (main's own last log call queues behind the fatal message), repetition does.
+            for _ in range(3):
+                rc_again, err_again, _ = run_cli(bindir, c, "full")
+                n += 1
+                if rc_again == 0:
+                    why = "exit status 0 in one of %d identical runs although every write to the output failed (ENOSPC): the exit status depends on the schedule" % (n - 1)
+                    rc_full, err_full = rc_again, err_again
+                    break
+        return n, why, rc_full, err_full, rc_ok
+    for i, c in enumerate(cs):
+        c["_slot"] = i % 4
+    with ThreadPoolExecutor(max_workers=4) as ex:      # case i works in its own directory out<i mod 4>: one worker per directory
+        res = [r for part in ex.map(lambda k: [one(c) for c in cs[k::4]], range(4)) for r in part]
+    cs = [c for k in range(4) for c in cs[k::4]]
+    for c, (n, why, rc_full, err_full, rc_ok) in zip(cs, res):
+        c.pop("_slot", None)
+        nruns += n
+        k = "%s %s" % (c["argv"][0], c["mode"])
+        dist[k] = dist.get(k, 0) + n
         if why:
             nbad += 1
-            if nbad <= 3:
+            if nbad <= 4:
                 ctx.violation("cli_%d" % nbad, dict(property="C18", kind="cli", case=c, why=why, exit_on_dev_full=rc_full, stderr_tail=err_full,
-                                                    exit_on_file=rc_ok, expected="non-zero exit on /dev/full, zero on a regular file"))
-    ctx.cov["cli_runs"] = 2 * len(cs)
+                                                    exit_on_file=rc_ok, expected="non-zero exit on the failing output, zero on regular files"))
+    ctx.cov["cli_runs"] = nruns
     ctx.cov["cli_distribution"] = dist
     ctx.cov["cli_failures"] = nbad
-    return len(cs)
+    return nruns
 
 
 def nontrivial(c):
-    return c.get("fail_at", -1) >= 0 or c.get("close_fails") or shaped(c)
+    return c.get("fail_at", -1) >= 0 or c.get("close_fails") or shaped(c) or c.get("path") == "/dev/full"
 
 
 def run(ctx, broken):
+    import time
+    t0 = time.time()
     cases = gen_cases(ctx, 300 if ctx.quick else 3000)
+    t1 = time.time()
     obs, fails, mism = evaluate(ctx, cases, broken, "main")
+    t2 = time.time()
     ncli = cli_check(ctx, broken)
-    ctx.cov["evaluations"] = len(cases) + 2 * ncli
+    ctx.cov.setdefault("phase_wall_s", {}).update(generate_and_fault_free_runs=round(t1 - t0, 1), fault_runs_oracle_and_models=round(t2 - t1, 1), commands=round(time.time() - t2, 1))
+    ctx.cov["evaluations"] = len(cases) + ncli
     ctx.cov["distinct_nontrivial"] = len({json.dumps(norm(c), sort_keys=True) for c in cases if nontrivial(c)})
-    ctx.cov["rule"] = ("non-trivial = a fault is injected (the device fails after fail_at bytes and/or at Close); distinct = distinct "
-                       "(writer, sizes, arrival, workers, compressed, seqlen, fail_at, close_fails); small outputs: every byte offset")
+    ctx.cov["rule"] = ("non-trivial = a fault is injected (the device fails after fail_at bytes and/or at Close, cuts a write short, fails zero-length "
+                       "writes, or is /dev/full); distinct = distinct normalised case (writer / mode, batch sizes, arrival, workers, compressed, owned or not, "
+                       "record flavour, fault parameters, logger speed, Wfile call history); small outputs: every byte offset")
     dist = {}
     for c, o in zip(cases, obs):
-        k = "%s/%s/%s/%s" % (c["writer"], "big" if c.get("seqlen") else "small", "gz" if c.get("compressed") else "raw", o.get("exit"))
+        k = "%s/%s/%s/%s" % (c.get("mode") or c["writer"], "big" if c.get("seqlen") else "small", "gz" if c.get("compressed") else "raw", o.get("exit"))
         dist[k] = dist.get(k, 0) + 1
     ctx.cov["distribution"] = dist
+    dims = {}
+    for c, o in zip(cases, obs):
+        for k in ("unowned", "slow_log", "rich", "empty", "keep_open", "compressed", "close_fails", "zero_err", "append"):
+            if c.get(k):
+                dims[k] = dims.get(k, 0) + 1
+        for k, v in (("mode", c.get("mode") or "writers"), ("model", family(c) if not c.get("compressed") and not c.get("path") else "oracle-only"),
+                     ("batches", "0" if not (c.get("sizes") or c.get("bytes")) else "1-5" if len(c.get("sizes") or c.get("bytes")) <= 5 else "6-59" if len(c.get("sizes") or c.get("bytes")) < 60 else ">=60"),
+                     ("workers", str(c.get("workers", 1))), ("path", c.get("path") and ("/dev/full" if c["path"] == "/dev/full" else "file")),
+                     ("result_bytes", "n/a" if "_exp_len" not in o else "0" if o["_exp_len"] == 0 else "<4096" if o["_exp_len"] < 4096 else "<100k" if o["_exp_len"] < 100000 else ">=1MiB" if o["_exp_len"] >= 1 << 20 else ">=100k")):
+            if v:
+                dims["%s=%s" % (k, v)] = dims.get("%s=%s" % (k, v), 0) + 1
+    ctx.cov["dimensions"] = dims
+    ctx.cov["observation_openwritingfile_no_truncate"] = sum(1 for o in obs if o.get("_stale_tail"))
+    ctx.cov["slow_logger_runs"] = dict(total=dims.get("slow_log", 0), ended_fatal=sum(1 for c, o in zip(cases, obs) if c.get("slow_log") and o.get("exit") == "fatal"))
     ctx.cov["oracle_failures"] = len(fails)
     ctx.cov["model_vs_impl_mismatches"] = len(mism)
     ctx.cov["device_shapes"] = dict(
@@ -415,9 +803,11 @@ def run(ctx, broken):
         observation_gzip_short_write_without_error_lost_bytes=sum(1 for c, o in zip(cases, obs) if c.get("compressed") and c.get("cut_at", 0) > 0 and o.get("_lost")),
         compressed_ok_exits_with_a_failed_device_write=sum(1 for c, o in zip(cases, obs) if c.get("compressed") and o.get("exit") == "ok" and o.get("dev_failed")))
     ctx.samples = []
-    for i in (0, 2, 4, len(CORPUS) + 1, len(cases) - 1):
-        o = {k: v for k, v in obs[i].items() if k not in ("chunks", "got", "_term")}; o["got"] = "%d bytes" % obs[i].get("got_len", 0)
-        ctx.samples.append(dict(case=norm(cases[i]), implementation=o))
+    first = lambda pred: next((i for i, c in enumerate(cases) if pred(c)), 0)
+    for i in (0, 2, 4, len(CORPUS) + 1, first(lambda c: c.get("unowned") and c.get("fail_at", -1) > 0), first(lambda c: c.get("mode") == "chunk" and c.get("keep_open")),
+              first(lambda c: c.get("mode") == "wfile" and c.get("fail_at", -1) > 0), first(lambda c: c.get("slow_log")), len(cases) - 1):
+        o = {k: v for k, v in obs[i].items() if k not in ("chunks", "got", "_term", "file")}; o["got"] = "%d bytes" % obs[i].get("got_len", 0)
+        ctx.samples.append(dict(case={k: v for k, v in norm(cases[i]).items() if v not in (0, False, "", [])}, implementation=o))
     if mism and not ctx.violations:
         more = gen_cases(ctx, 6000)
         evaluate(ctx, more, [], "search", corr=False)
@@ -433,9 +823,10 @@ def run(ctx, broken):
 def replay(ctx, rp):
     c = rp.get("case") or rp.get("first_diverging_case")
     if rp.get("kind") == "cli":
-        bindir, err = ctx.build_cmds(["obiconvert", "obicsv"])
+        bindir, err = ctx.build_cmds(["obiconvert", "obicsv", "obigrep", "obidistribute"])
         cli_cases(ctx)
-        print("replay:", c, "-> exit on /dev/full:", run_cli(bindir, c, "/dev/full"))
+        print("replay:", c, "-> (exit, stderr, sizes) on the failing output:", run_cli(bindir, c, "full"), "| again:", [run_cli(bindir, c, "full")[0] for _ in range(3)],
+              "| on regular files:", run_cli(bindir, c, "ok"))
         return
     obs, fails, mism = evaluate(ctx, [c], [], "replay")
     o = {k: v for k, v in obs[0].items() if k not in ("chunks", "got", "_term")}; o["got"] = "%d bytes" % obs[0].get("got_len", 0)
